@@ -13,6 +13,7 @@ import (
 	"github.com/obolnetwork/charon/core"
 	pbv1 "github.com/obolnetwork/charon/core/corepb/v1"
 	"github.com/obolnetwork/charon/core/parsigex"
+	"github.com/obolnetwork/charon/tbls"
 	"github.com/obolnetwork/charon/testutil"
 
 	"verifharness/kit"
@@ -34,6 +35,7 @@ type pmsg struct {
 	DutyType      int32
 	Entries       []pentry
 	AltIdx        int
+	AltIdxs       []int // all altered entries of a coordinated multi-entry alteration (nil: just AltIdx)
 	Clock         time.Duration // offset of the node's clock while the message is handled
 	NilDuty       bool
 	NilSet        bool
@@ -432,6 +434,53 @@ func (e *env) runPeer(c *kit.Case, w *world, tg target) {
 		}
 	}
 
+	// 7. coordinated multi-entry alterations (one set, several validators of the same duty):
+	// signatures swapped / rotated between validators, key shares shifted by cancelling offsets.
+	if len(w.co) >= 3 {
+		coPerm := rng.Perm(len(w.co))
+		cv := []*valInfo{w.co[coPerm[0]], w.co[coPerm[1]], w.co[coPerm[2]]}
+		coItems, err := w.cobuild(k, cv, rng)
+		if err != nil {
+			r.Inconclusive("%s: co-slot build: %v", tg.Name, err)
+		} else {
+			keyOf := map[any]string{}
+			secrets := []tbls.PrivateKey{cv[0].Shares[share], cv[1].Shares[share], cv[2].Shares[share]}
+			for i, it := range coItems {
+				if err := w.sign(it, secrets[i], "", nil); err != nil {
+					r.Inconclusive("%s: co-slot sign: %v", tg.Name, err)
+				}
+			}
+			coInfo, _ := w.inspect(coItems[0])
+			coDuty := w.dutyOf(k, coInfo)
+			coMsg := func(class, detail string, items []any, keys []string) *pmsg {
+				var ents []pentry
+				e2 := enc()
+				for i, it := range items {
+					ents = append(ents, pentry{Key: keys[i], Item: it, Kind: k, ShareIdx: int32(share), Enc: e2})
+				}
+				m := newMsg(class, detail, ents...)
+				m.DutySlot, m.DutyType = coDuty.Slot, int32(coDuty.Type)
+
+				return m
+			}
+			keys := []string{string(cv[0].Core), string(cv[1].Core), string(cv[2].Core)}
+			m := coMsg("valid-coslot-batch", "three validators in one set", deepCopy(coItems), keys)
+			m.MustAdmit = true
+			msgs = append(msgs, m)
+			// the claimed validator of an entry is its map key: find it back through the signed content
+			// (multiAlterations shuffles items), so tag items by identity of their non-signature content.
+			for _, ma := range w.multiAlterationsKeyed(rng, coItems, secrets, keys, keyOf) {
+				mk := make([]string, len(ma.Items))
+				for i, it := range ma.Items {
+					mk[i] = keyOf[it]
+				}
+				m := coMsg(ma.Class, ma.Detail, ma.Items, mk)
+				m.AltIdx, m.AltIdxs = ma.AltIdxs[0], ma.AltIdxs
+				msgs = append(msgs, m)
+			}
+		}
+	}
+
 	classes := map[string]bool{}
 	mustRejectSeen, validOK := 0, 0
 	for _, m := range msgs {
@@ -458,7 +507,6 @@ func (e *env) judgePeer(c *kit.Case, w *world, tg target, k kind, m *pmsg, baseI
 
 	// classification
 	var reasons []string
-	var info sigInfo
 	var ierr error
 	hasAlt := m.AltIdx < len(m.Entries)
 	cryptoReason := false
@@ -477,31 +525,58 @@ func (e *env) judgePeer(c *kit.Case, w *world, tg target, k kind, m *pmsg, baseI
 	if core.DutyType(m.DutyType) == core.DutySignature {
 		reasons = append(reasons, "duty-type-not-eth2-signed")
 	}
-	if hasAlt && !m.MustAdmit {
-		en := m.Entries[m.AltIdx]
+	type altEntry struct {
+		en   pentry
+		info sigInfo
+		ierr error
+	}
+	var altEntries []altEntry
+	altIdxs := m.AltIdxs
+	multi := len(altIdxs) > 0
+	if !multi && hasAlt {
+		altIdxs = []int{m.AltIdx}
+	}
+	for _, ix := range altIdxs {
+		if m.MustAdmit {
+			break
+		}
+		en := m.Entries[ix]
 		if en.Item == nil {
 			if core.DutyType(m.DutyType) != core.DutySignature {
 				reasons = append(reasons, "undecodable-data")
 			}
-		} else {
-			if core.DutyType(m.DutyType) != en.Kind.DutyType && len(reasons) == 0 {
-				reasons = append(reasons, "duty-type-mismatch")
-			}
-			info, ierr = w.inspect(en.Item)
-			shares, known := w.pubShare[core.PubKey(en.Key)]
-			_, shareOK := shares[int(en.ShareIdx)]
-			switch {
-			case !known:
-				reasons = append(reasons, "pubkey-not-in-lock")
-			case !shareOK:
-				reasons = append(reasons, "share-index-out-of-range")
-			case ierr != nil:
-				reasons = append(reasons, "unparseable")
-			case !w.verifies(info, shares[int(en.ShareIdx)]):
+
+			continue
+		}
+		if core.DutyType(m.DutyType) != en.Kind.DutyType && len(reasons) == 0 {
+			reasons = append(reasons, "duty-type-mismatch")
+		}
+		ae := altEntry{en: en}
+		ae.info, ae.ierr = w.inspect(en.Item)
+		shares, known := w.pubShare[core.PubKey(en.Key)]
+		_, shareOK := shares[int(en.ShareIdx)]
+		switch {
+		case !known:
+			reasons = append(reasons, "pubkey-not-in-lock")
+		case !shareOK:
+			reasons = append(reasons, "share-index-out-of-range")
+		case ae.ierr != nil:
+			reasons = append(reasons, "unparseable")
+		case !w.verifies(ae.info, shares[int(en.ShareIdx)]):
+			if multi {
+				cryptoReason = len(reasons) == 0 || reasons[len(reasons)-1] == "invalid-under-claimed-share"
+				if len(reasons) == 0 {
+					reasons = append(reasons, "invalid-under-claimed-share")
+				}
+			} else {
 				cryptoReason = len(reasons) == 0
-				reasons = append(reasons, w.diffReasons(info, baseInfo, w.byCore[core.PubKey(en.Key)], baseV, int(en.ShareIdx), baseShare)...)
+				reasons = append(reasons, w.diffReasons(ae.info, baseInfo, w.byCore[core.PubKey(en.Key)], baseV, int(en.ShareIdx), baseShare)...)
 			}
 		}
+		altEntries = append(altEntries, ae)
+	}
+	if len(altEntries) > 0 {
+		ierr = altEntries[0].ierr
 	}
 	mustReject := len(reasons) > 0 && !m.MustAdmit
 	cls := classification(reasons)
@@ -534,7 +609,7 @@ func (e *env) judgePeer(c *kit.Case, w *world, tg target, k kind, m *pmsg, baseI
 			"target": tg.Name, "kind": k.String(), "class": m.Class, "detail": m.Detail, "classification": cls,
 			"n": w.n, "k": w.k, "node_share_idx": w.shareIdx, "sender_peer": m.From, "signer": baseV.Name,
 			"wire_duty": fmt.Sprintf("%d/%d", m.DutySlot, m.DutyType), "clock_offset": m.Clock.String(), "current_epoch": w.currentEpoch,
-			"handler_errors": out.Errors, "panic": out.Panic, "send_error": out.SendErr, "admitted": adm, "alt_index": m.AltIdx, "entries": ents,
+			"handler_errors": out.Errors, "panic": out.Panic, "send_error": out.SendErr, "admitted": adm, "alt_index": m.AltIdx, "alt_indices": m.AltIdxs, "entries": ents,
 		}
 	}
 
@@ -547,15 +622,17 @@ func (e *env) judgePeer(c *kit.Case, w *world, tg target, k kind, m *pmsg, baseI
 		if !ok {
 			continue
 		}
-		if hasAlt && m.Entries[m.AltIdx].Item != nil && ierr == nil && string(ad.PubKey) == m.Entries[m.AltIdx].Key &&
-			ad.Par.ShareIdx == int(m.Entries[m.AltIdx].ShareIdx) && ai.Sig == info.Sig {
+		for _, ae := range altEntries {
+			if ae.ierr != nil || string(ad.PubKey) != ae.en.Key || ad.Par.ShareIdx != int(ae.en.ShareIdx) || ai.Sig != ae.info.Sig {
+				continue
+			}
 			reached = true
-			if ai.Root == info.Root && ai.Domain == info.Domain && ai.Epoch == info.Epoch {
+			if ai.Root == ae.info.Root && ai.Domain == ae.info.Domain && ai.Epoch == ae.info.Epoch {
 				sameObject = true
 			}
 		}
 	}
-	if len(out.Admitted) > 0 && (!hasAlt || m.Entries[m.AltIdx].Item == nil || ierr != nil || !cryptoReason) {
+	if len(out.Admitted) > 0 && (len(altEntries) == 0 || ierr != nil || !cryptoReason) {
 		// window / type / key / envelope defects poison the whole message: nothing may get through
 		reached, sameObject = true, true
 	}
